@@ -164,11 +164,13 @@ func (tm *typesMap) newName(typs []types.Type) string {
 	funcName := tm.prefix
 	_, exists := tm.funcToTyps[funcName]
 	_, isreserved := tm.reserved[funcName]
+	// The name is extended letter by letter: cutting it at a byte offset could split a multi-byte letter.
+	letters := []rune(name)
 	for exists || isreserved {
-		if i > len(name) {
+		if i > len(letters) {
 			funcName = tm.prefix + "_" + name + strconv.Itoa(i)
 		} else {
-			funcName = tm.prefix + "_" + name[:i]
+			funcName = tm.prefix + "_" + string(letters[:i])
 		}
 		i++
 		_, exists = tm.funcToTyps[funcName]
